@@ -43,6 +43,7 @@ def run(F, rep, tier):
     conditional_rule(F, rep)
     context_visibility_rule(F, rep)
     declaration_order_rule(F, rep)
+    step_rule(F, rep)
     # premises
     c13.scope_neutral_premise(F, rep, "dmntk_feel_evaluator", 25)
     import callgraph
@@ -775,3 +776,79 @@ def declaration_order_rule(F, rep):
         else:
             rep.undecided(rid, key, "no collection that is filled from the declared contexts and consumed by a loop feeding the iterator was recognised")
     rep.floor(rid, "iteration builders", n, 3)
+
+
+# ====================================================================================================== R01.9
+STEP_CELLS = ((1, 3), (2, 2), (3, 1), (-4, -4), (0, 0), (-1, -3), (-3, -1))
+
+
+def step_rule(F, rep):
+    """The cartesian odometer (FeelIterator::run) advances a variable by its `step` and leaves the whole iteration when it meets a step of 0: a range variable whose step is 0
+    truncates the product (`for x in 1..2, y in 3..3 return x + y` answers one element). Every literal of the iterator state is folded on ascending, equal and descending
+    bounds: the step is +1 when start <= end would reach the end upwards, -1 when downwards, and never 0."""
+    rid = rep.rule("R01.9", "every iterator state is built with a step of +1 (start <= end reachable upwards) or -1 (downwards), never 0: the odometer leaves the whole iteration on a zero step")
+    n = 0
+    for name, h in sorted(F.hir.items()):
+        if not name.startswith("dmntk_feel_evaluator::"):
+            continue
+        lits = find_hir(h["body"], lambda x: x.get("k") == "Struct" and str(x.get("path") or "").endswith("::FeelIteratorState"))
+        for lit, _ in lits:
+            fields = {f["name"]: f["e"] for f in lit.get("fields", [])}
+            short = name.split("::")[-1]
+            key = "step:%s" % short
+            where = "%s:%s" % (h["file"], h["line"])
+            if "step" not in fields or "start" not in fields or "end" not in fields:
+                rep.undecided(rid, key, "the state literal does not name step, start and end (functional update)")
+                continue
+            n += 1
+            bad, unknown, cells = [], [], 0
+            for (a, b) in STEP_CELLS:
+                ev = Evaluator(F, ints=True)
+                ev.crate = h.get("_crate")
+                env = {}
+                for q in h["params"]:
+                    ev.match(q.get("p", q), sym(pname(q) or "_"), env)
+                # the bounds of the state are the values of its `start` / `end` fields: parameters named by them take the cell's values
+                for fld, val in (("start", a), ("end", b)):
+                    e = strip(fields[fld])
+                    if e.get("k") == "Path" and e.get("res") == "local":
+                        env[e["name"]] = ("lit", val)
+                try:
+                    outs = [(s, v) for s, v in ev.ev(fields["step"], State(env))]
+                except (TooManyPaths, ValueError, KeyError, TypeError, IndexError) as x:
+                    unknown.append("(%d, %d): %s" % (a, b, x))
+                    continue
+                for s, v in outs:
+                    cells += 1
+                    if v[0] != "lit" or not isinstance(v[1], int) or isinstance(v[1], bool):
+                        unknown.append("(%d, %d): %s" % (a, b, str(v)[:60]))
+                    elif v[1] == 0:
+                        bad.append("step 0 for bounds %d..%d" % (a, b))
+                    elif bounded(fields) and ((a < b and v[1] != 1) or (a > b and v[1] != -1) or abs(v[1]) != 1):
+                        bad.append("step %d for bounds %d..%d" % (v[1], a, b))
+                    elif not bounded(fields) and v[1] != 1:
+                        bad.append("step %d of a state whose bounds are 0 .. length - 1" % v[1])
+            if bad:
+                rep.violation(rid, key, "%s builds an iterator state with %s: the odometer of FeelIterator::run leaves the whole iteration on a zero step and never reaches the end "
+                              "against the direction, e.g. `for x in 1..2, y in 3..3 return x + y`" % (short, "; ".join(sorted(set(bad))[:3])), where)
+            elif unknown:
+                rep.undecided(rid, key, "the step of the state built by %s does not fold to an integer: %s" % (short, "; ".join(unknown[:2])))
+            else:
+                rep.ok(rid, key, "%d folds on ascending, equal and descending bounds: +1 / +-1 / -1" % cells)
+    rep.floor(rid, "iterator state literals", n, 2)
+
+
+def pname(q):
+    p = q.get("p", q)
+    while p.get("k") in ("Ref", "Guard") and "p" in p:
+        p = p["p"]
+    return p.get("name") if p.get("k") == "Bind" else None
+
+
+def strip_ok(e):
+    e = strip(e)
+    return e.get("k") == "Path" and e.get("res") == "local"
+
+
+def bounded(fields):
+    return strip_ok(fields["start"]) and strip_ok(fields["end"])
